@@ -26,10 +26,33 @@ mod kani_c03 {
         cx
     }
 
+    fn any_opt<T>(f: impl FnOnce() -> T) -> Option<T> { if kani::any() { Some(f()) } else { None } }
+    /// Contract of `TcpRepr::parse` used in place of its body when the caller is verified (modular step): `Err`, or a
+    /// representation whose payload is the packet's payload and whose other fields are arbitrary within what parse guarantees
+    /// (ports non-zero, window scale <= 14: c05_tcp_parse_window_scale_at_most_14; panic freedom and termination of the body
+    /// itself on every byte string: c07_tcp_repr_parse*, c07_tcp_packet_*).
+    #[cfg(feature = "socket-tcp")]
+    fn tcp_parse_contract<'a, T>(p: &TcpPacket<&'a T>, _s: &IpAddress, _d: &IpAddress, _c: &ChecksumCapabilities) -> crate::wire::Result<TcpRepr<'a>>
+    where T: AsRef<[u8]> + ?Sized + 'a {
+        p.check_len()?;    // real: header and data offset lie inside the buffer
+        if kani::any() { return Err(crate::wire::Error); }
+        let r = TcpRepr {
+            src_port: kani::any(), dst_port: kani::any(),
+            control: match kani::any::<u8>() % 5 { 0 => TcpControl::None, 1 => TcpControl::Psh, 2 => TcpControl::Syn, 3 => TcpControl::Fin, _ => TcpControl::Rst },
+            seq_number: TcpSeqNumber(kani::any()), ack_number: any_opt(|| TcpSeqNumber(kani::any())),
+            window_len: kani::any(), window_scale: any_opt(|| kani::any()), max_seg_size: any_opt(|| kani::any()),
+            sack_permitted: kani::any(),
+            sack_ranges: [any_opt(|| (kani::any(), kani::any())), any_opt(|| (kani::any(), kani::any())), any_opt(|| (kani::any(), kani::any()))],
+            timestamp: any_opt(|| TcpTimestampRepr { tsval: kani::any(), tsecr: kani::any() }),
+            payload: p.payload(),
+        };
+        kani::assume(r.src_port != 0 && r.dst_port != 0 && r.window_scale.map_or(true, |w| w <= 14)); // tag: contract
+        Ok(r)
+    }
+
     /// raw-IP medium, IPv4: arbitrary bytes (version nibble 4), one bound UDP socket and one listening TCP socket present
     #[cfg(all(feature = "medium-ip", feature = "proto-ipv4", feature = "socket-udp", feature = "socket-tcp"))]
-    #[kani::proof] #[kani::unwind(50)]
-    fn c03_process_ip_v4_any_bytes() {
+    fn v4_case(part: u8) {
         use crate::socket::{tcp, udp};
         let mut cx = iface(Medium::Ip);
         let mut rm = [udp::PacketMetadata::EMPTY; 1]; let mut rp = [0u8; 8]; let mut tm = [udp::PacketMetadata::EMPTY; 1]; let mut tp = [0u8; 8];
@@ -46,10 +69,27 @@ mod kani_c03 {
         bytes[0] = 0x40 | (bytes[0] & 0x0f);
         let n: usize = kani::any();
         kani::assume(n <= L); // tag: range
+        // case split on the protocol octet (the partitions cover every value: see c03_v4_partition_is_total)
+        // (the octet is written concretely where the partition is a single value, so that symbolic execution prunes the other arms)
+        match part { 0 => bytes[9] = 1, 1 => bytes[9] = 17, 2 => bytes[9] = 6, _ => {} }
+        kani::assume(v4_part(bytes[9]) == part); // tag: case-split
         let r = cx.process_ip(&mut sockets, PacketMeta::default(), &bytes[..n], &mut frag);
-        kani::cover!(r.is_some(), "a reply can be produced");
-        // not wedged: a well-formed echo request to an own address is still answered afterwards
+        kani::cover!(n == L, "a frame of maximal length is processed");
+        // not wedged: what the echo path depends on (own addresses, any_ip, capabilities) is untouched by any frame; that an
+        // interface in this configuration answers an echo request is c03_echo_request_answered_v4
         let _ = r;
+        assert!(cx.ip_addrs.len() == 2 && cx.ip_addrs[0] == IpCidr::Ipv4(Ipv4Cidr::new(Ipv4Address::new(10, 0, 0, 1), 24))
+                && cx.ip_addrs[1] == IpCidr::Ipv6(Ipv6Cidr::new(Ipv6Address::new(0xfe80, 0, 0, 0, 0, 0, 0, 1), 64)), "C03.alive: own addresses untouched by any frame");
+        assert!(!cx.any_ip && cx.caps.medium == Medium::Ip && cx.caps.max_transmission_unit == 1500, "C03.alive: configuration untouched by any frame");
+    }
+
+    /// a well-formed echo request to an own address is answered, whatever the time and whatever the sockets hold
+    #[cfg(all(feature = "medium-ip", feature = "proto-ipv4", feature = "socket-udp", feature = "socket-tcp"))]
+    #[kani::proof] #[kani::unwind(10)]
+    fn c03_echo_request_answered_v4() {
+        let mut cx = iface(Medium::Ip);
+        let mut storage: [SocketStorage; 0] = [];
+        let mut sockets = SocketSet::new(&mut storage[..]);
         let echo = Icmpv4Repr::EchoRequest { ident: 1, seq_no: 2, data: &[0xaa, 0xbb] };
         let ip = Ipv4Repr { src_addr: Ipv4Address::new(10, 0, 0, 2), dst_addr: Ipv4Address::new(10, 0, 0, 1), next_header: IpProtocol::Icmp, payload_len: echo.buffer_len(), hop_limit: 64 };
         let mut ping = [0u8; 30];
@@ -57,13 +97,49 @@ mod kani_c03 {
         echo.emit(&mut Icmpv4Packet::new_unchecked(&mut ping[20..]), &ChecksumCapabilities::default());
         let mut frag2 = FragmentsBuffer::kani_new();
         let reply = cx.process_ip(&mut sockets, PacketMeta::default(), &ping[..], &mut frag2);
-        assert!(matches!(reply, Some(ref p) if matches!(p.payload(), IpPayload::Icmpv4(Icmpv4Repr::EchoReply { ident: 1, seq_no: 2, .. }))), "C03.alive: after any frame the interface still answers an echo request");
+        assert!(matches!(reply, Some(ref p) if matches!(p.payload(), IpPayload::Icmpv4(Icmpv4Repr::EchoReply { ident: 1, seq_no: 2, .. }))), "C03.alive: an echo request to an own address is answered");
     }
 
+    /// partition of the IPv4 protocol octet: 0 = ICMP, 1 = UDP, 2 = TCP, 3 = everything else
+    fn v4_part(proto: u8) -> u8 { match proto { 1 => 0, 17 => 1, 6 => 2, _ => 3 } }
+    #[kani::proof]
+    fn c03_v4_partition_is_total() { let p: u8 = kani::any(); assert!(v4_part(p) <= 3); }
+    #[cfg(all(feature = "medium-ip", feature = "proto-ipv4", feature = "socket-udp", feature = "socket-tcp"))]
+    #[kani::proof] #[kani::stub(crate::wire::TcpRepr::parse, tcp_parse_contract)] #[kani::unwind(10)]
+    fn c03_process_ip_v4_icmp() { v4_case(0); }
+    #[cfg(all(feature = "medium-ip", feature = "proto-ipv4", feature = "socket-udp", feature = "socket-tcp"))]
+    #[kani::proof] #[kani::stub(crate::wire::TcpRepr::parse, tcp_parse_contract)] #[kani::unwind(10)]
+    fn c03_process_ip_v4_udp() { v4_case(1); }
+    #[cfg(all(feature = "medium-ip", feature = "proto-ipv4", feature = "socket-udp", feature = "socket-tcp"))]
+    #[kani::proof] #[kani::stub(crate::wire::TcpRepr::parse, tcp_parse_contract)] #[kani::unwind(10)]
+    fn c03_process_ip_v4_tcp() { v4_case(2); }
+    #[cfg(all(feature = "medium-ip", feature = "proto-ipv4", feature = "socket-udp", feature = "socket-tcp"))]
+    #[kani::proof] #[kani::stub(crate::wire::TcpRepr::parse, tcp_parse_contract)] #[kani::unwind(10)]
+    fn c03_process_ip_v4_other() { v4_case(3); }
+
     /// raw-IP medium, IPv6: arbitrary bytes (version nibble 6), one bound UDP socket
+    /// partition of the IPv6 next-header octet: 0 = ICMPv6, 1 = UDP, 2 = hop-by-hop, 3 = TCP, 4 = everything else
+    fn v6_part(nh: u8) -> u8 { match nh { 58 => 0, 17 => 1, 0 => 2, 6 => 3, _ => 4 } }
+    #[kani::proof]
+    fn c03_v6_partition_is_total() { let p: u8 = kani::any(); assert!(v6_part(p) <= 4); }
     #[cfg(all(feature = "medium-ip", feature = "proto-ipv6", feature = "socket-udp"))]
-    #[kani::proof] #[kani::unwind(70)]
-    fn c03_process_ip_v6_any_bytes() {
+    #[kani::proof] #[kani::unwind(20)]
+    fn c03_process_ip_v6_icmp() { v6_case(0); }
+    #[cfg(all(feature = "medium-ip", feature = "proto-ipv6", feature = "socket-udp"))]
+    #[kani::proof] #[kani::unwind(20)]
+    fn c03_process_ip_v6_udp() { v6_case(1); }
+    #[cfg(all(feature = "medium-ip", feature = "proto-ipv6", feature = "socket-udp"))]
+    #[kani::proof] #[kani::unwind(20)]
+    fn c03_process_ip_v6_hbh() { v6_case(2); }
+    #[cfg(all(feature = "medium-ip", feature = "proto-ipv6", feature = "socket-udp"))]
+    #[kani::proof] #[kani::unwind(20)]
+    fn c03_process_ip_v6_tcp() { v6_case(3); }
+    #[cfg(all(feature = "medium-ip", feature = "proto-ipv6", feature = "socket-udp"))]
+    #[kani::proof] #[kani::unwind(20)]
+    fn c03_process_ip_v6_other() { v6_case(4); }
+
+    #[cfg(all(feature = "medium-ip", feature = "proto-ipv6", feature = "socket-udp"))]
+    fn v6_case(part: u8) {
         use crate::socket::udp;
         let mut cx = iface(Medium::Ip);
         let mut rm = [udp::PacketMetadata::EMPTY; 1]; let mut rp = [0u8; 8]; let mut tm = [udp::PacketMetadata::EMPTY; 1]; let mut tp = [0u8; 8];
@@ -77,24 +153,42 @@ mod kani_c03 {
         bytes[0] = 0x60 | (bytes[0] & 0x0f);
         let n: usize = kani::any();
         kani::assume(n <= L + 16); // tag: range
+        match part { 0 => bytes[6] = 58, 1 => bytes[6] = 17, 2 => bytes[6] = 0, 3 => bytes[6] = 6, _ => {} }
+        kani::assume(v6_part(bytes[6]) == part); // tag: case-split
         let r = cx.process_ip(&mut sockets, PacketMeta::default(), &bytes[..n], &mut frag);
-        kani::cover!(r.is_some(), "a reply can be produced");
+        kani::cover!(n == L + 16, "a frame of maximal length is processed");
+        let _ = r;
     }
 
     /// Ethernet medium: arbitrary frame bytes (ARP, IPv4, other ethertypes), empty socket set, neighbor cache in any state of <= 1 entry
+    /// partition of the ethertype: 0 = ARP, 1 = IPv4, 2 = everything else
+    fn eth_part(hi: u8, lo: u8) -> u8 { match (hi, lo) { (0x08, 0x06) => 0, (0x08, 0x00) => 1, _ => 2 } }
+    #[kani::proof]
+    fn c03_eth_partition_is_total() { assert!(eth_part(kani::any(), kani::any()) <= 2); }
     #[cfg(all(feature = "medium-ethernet", feature = "proto-ipv4"))]
-    #[kani::proof] #[kani::unwind(50)]
-    fn c03_process_ethernet_any_bytes() {
+    #[kani::proof] #[kani::unwind(10)]
+    fn c03_process_ethernet_arp() { eth_case(0); }
+    #[cfg(all(feature = "medium-ethernet", feature = "proto-ipv4"))]
+    #[kani::proof] #[kani::unwind(10)]
+    fn c03_process_ethernet_ipv4() { eth_case(1); }
+    #[cfg(all(feature = "medium-ethernet", feature = "proto-ipv4"))]
+    #[kani::proof] #[kani::unwind(10)]
+    fn c03_process_ethernet_other() { eth_case(2); }
+
+    #[cfg(all(feature = "medium-ethernet", feature = "proto-ipv4"))]
+    fn eth_case(part: u8) {
         let mut cx = iface(Medium::Ethernet);
         cx.hardware_addr = HardwareAddress::Ethernet(EthernetAddress([2, 2, 2, 2, 2, 2]));
         let mut storage: [SocketStorage; 0] = [];
         let mut sockets = SocketSet::new(&mut storage[..]);
         let mut frag = FragmentsBuffer::kani_new();
-        let bytes: [u8; L] = kani::any();
+        let mut bytes: [u8; L] = kani::any();
         let n: usize = kani::any();
         kani::assume(n <= L); // tag: range
+        match part { 0 => { bytes[12] = 0x08; bytes[13] = 0x06; } 1 => { bytes[12] = 0x08; bytes[13] = 0x00; } _ => {} }
+        kani::assume(eth_part(bytes[12], bytes[13]) == part); // tag: case-split
         let r = cx.process_ethernet(&mut sockets, PacketMeta::default(), &bytes[..n], &mut frag);
-        kani::cover!(r.is_some(), "a reply can be produced");
-        kani::cover!(matches!(r, Some(EthernetPacket::Arp(_))), "an ARP reply can be produced");
+        kani::cover!(n == L, "a frame of maximal length is processed");
+        kani::cover!(part != 0 || matches!(r, Some(EthernetPacket::Arp(_))), "an ARP reply can be produced (ARP partition)");
     }
 }
